@@ -12,6 +12,7 @@ import json
 import os
 import subprocess
 import sys
+import threading
 import time
 
 ROOT = os.path.dirname(os.path.dirname(os.path.abspath(__file__)))
@@ -45,7 +46,15 @@ def _parse(stdout: str, tag: str):
     return None
 
 
+_SLOTS = threading.BoundedSemaphore(NCPU)
+
+
 def run_worker(py, module, obname, budget, tier, mode="", exclude=(), only=""):
+    with _SLOTS:
+        return _run_worker(py, module, obname, budget, tier, mode, exclude, only)
+
+
+def _run_worker(py, module, obname, budget, tier, mode="", exclude=(), only=""):
     env = _env(VF_MODE=mode, VF_EXCLUDE=",".join(exclude), VF_ONLY=only, VERIF_TIER=tier)
     t0 = time.perf_counter()
     try:
@@ -119,7 +128,7 @@ def process_obligation(py, prop, module, ob, tier, findings, log):
     with cf.ThreadPoolExecutor(max_workers=1 + len(ob.sites) + len(listed)) as tp:
         f_main = tp.submit(run_worker, py, module, ob.name, budget, tier, "", listed, "")
         f_twins = {}
-        if ob.engine == "ch":
+        if ob.engine == "ch" and ob.twins:
             for s in ob.sites:
                 f_twins[s] = tp.submit(run_worker, py, module, ob.name, max(30.0, budget / 2), tier,
                                        "twin:" + s, listed, "")
@@ -178,15 +187,16 @@ def process_obligation(py, prop, module, ob, tier, findings, log):
         if main.get("traceback"):
             rec["why"] += "\n" + main["traceback"]
 
-    # --- vacuity guard: every declared site must be reachable
+    # --- vacuity guard: sites reached on confirmed paths of the main run or by a refuted twin
+    #     (coverage of the declared sites is judged per group in main())
+    rec["group"] = ob.group
+    rec["sites_required"] = list(ob.sites)
+    rec["reached"] = dict(main.get("reached") or {})
     entered = set()
     for s, tw in twins.items():
         if tw.get("status") != "refuted":
-            if rec["verdict"] in ("discharged", "bounded-inconclusive"):
-                rec["verdict"] = "inconclusive"
-                rec["why"] = "reachability twin for site %r came back %s (%s)" % (
-                    s, tw.get("status"), tw.get("error") or tw.get("messages"))
             continue
+        rec["reached"][s] = rec["reached"].get(s, 0) + 1
         if tw.get("args_b64"):
             p = write_replay(prop, module, ob, tw, "witness-" + s)
             rp = run_replay(p, trace=True)
@@ -199,11 +209,10 @@ def process_obligation(py, prop, module, ob, tier, findings, log):
                 rec["why"] = "twin witness %s fails in plain Python (%s) but the engine confirmed" % (
                     tw.get("args_repr"), rp.get("detail"))
     if ob.engine == "ch":
-        missing = [e for e in ob.encodes if e not in entered]
-        rec["entered_repo_functions"] = len(entered)
-        if missing and twins and rec["verdict"] in ("discharged", "bounded-inconclusive"):
+        rec["entered"] = sorted(entered)
+        if rec["verdict"] == "discharged" and rec["confirmed_paths"] == 0:
             rec["verdict"] = "inconclusive"
-            rec["why"] = "declared functions never entered by any witness: %s" % missing
+            rec["why"] = "vacuous: no confirmed path"
 
     # --- known-finding regions
     for r, rr in regions.items():
@@ -293,12 +302,14 @@ def main(argv=None):
     from vf.hlib import REGISTRY
 
     todo = []
+    todo_all = []
     for m, n in pairs:
         ob = REGISTRY[n]
         if ob.prop != prop:
             continue
         if a.tier not in ob.tiers:
             continue
+        todo_all.append((m, ob))
         if a.ob and n not in a.ob:
             continue
         todo.append((m, ob))
@@ -317,7 +328,7 @@ def main(argv=None):
             os.remove(p)
 
     # each obligation uses up to 1+sites+regions processes; keep ~NCPU busy
-    width = max(2, NCPU // 3)
+    width = NCPU
     recs = []
     with cf.ThreadPoolExecutor(max_workers=width) as pool:
         futs = {pool.submit(process_obligation, py, prop, m, ob, a.tier, findings, None): ob for m, ob in todo}
@@ -336,6 +347,35 @@ def main(argv=None):
                 print("      " + str(rec["why"]).replace("\n", "\n      "), flush=True)
     recs.sort(key=lambda r: r["name"])
 
+    # --- group-level vacuity / encoding checks
+    groups = {}
+    for r in recs:
+        groups.setdefault(r.get("group", r["name"]), []).append(r)
+    for g, rs in groups.items():
+        if any(r.get("engine") != "ch" for r in rs):
+            continue
+        need = sorted({s for r in rs for s in r.get("sites_required", [])})
+        got = {s for r in rs for s in (r.get("reached") or {})}
+        entered = {e for r in rs for e in r.get("entered", [])}
+        enc = sorted({e for r in rs for e in r.get("encodes", [])})
+        missing = [s for s in need if s not in got]
+        unenc = [e for e in enc if e not in entered] if entered else []
+        complete = not a.ob or len(rs) == sum(1 for _, ob in todo_all if ob.group == g)
+        for r in rs:
+            if r["verdict"] not in ("discharged", "bounded-inconclusive"):
+                continue
+            if missing and complete:
+                r["verdict"] = "inconclusive"
+                r["why"] = "assertion sites never reached on a confirmed path (vacuity guard): %s" % missing
+            elif unenc:
+                r["verdict"] = "inconclusive"
+                r["why"] = "declared functions never entered by any witness replay: %s" % unenc
+        if missing or unenc:
+            print("[%s] group %s: missing sites %s, unentered %s" % (prop, g, missing, unenc), flush=True)
+
+    for r in recs:
+        if r["verdict"] in ("inconclusive", "engine-error"):
+            print("[%s] %s: %s: %s" % (prop, r["name"], r["verdict"], r.get("why")), flush=True)
     violations = [r for r in recs if r["verdict"] == "violated"]
     broken = [r for r in recs if r["verdict"] in ("inconclusive", "engine-error")]
     partial = [r for r in recs if r["verdict"] == "bounded-inconclusive"]
